@@ -139,6 +139,8 @@ class E2EWorld(World):
         self.inflight.remove(u)
         tim = dict(u['timing']) if u.get('timing') else {}
         nv = self.execute(a, t, u['run'], tim)
+        if getattr(self, 'dirty', None) is not None:
+            self.dirty.add((a, t))
         self.obs['new'] = sorted({'.'.join(n.split('.')[-2:]) for n, isnew in nv if isnew and not n.split('.')[-1].startswith('task_') and '__metric__' not in n})
         if u['run'] > self.stored_max:
             self.stored_max = u['run']
@@ -152,10 +154,21 @@ class E2EWorld(World):
     def snapshot(self):
         st = super().snapshot()
         full = {}
+        if not hasattr(self, 'cache'):
+            self.cache = {}
+            self.dirty = None  # None: read everything
         for a in self.algs:
             for t in list(self.targets) + [ALL]:
                 for v in ('s.v', 's.w'):
-                    full[f'{a}|{t}|{v}'] = self.read_back(a, t, v) if (t != ALL and v in self.prog['vals'][a]) else []
+                    k = f'{a}|{t}|{v}'
+                    if t == ALL or v not in self.prog['vals'][a]:
+                        full[k] = []
+                        continue
+                    # the store is re-read from the database only for units executed since the last snapshot
+                    if self.dirty is None or (a, t) in self.dirty or k not in self.cache:
+                        self.cache[k] = self.read_back(a, t, v)
+                    full[k] = self.cache[k]
+        self.dirty = set()
         st['stored'] = full
         st['src'] = {f'{a}|{t}|{v}': r for (a, t, v), r in self.src.items()}
         return st
